@@ -78,8 +78,10 @@ def register(rng):
     E("arr-op:list-operand", "a", "(a + [1, 2, 3], a * [2.0, 2.0, 2.0], [1, 2, 3] - a)", [[F([1.0, 2.0, 3.0])], [Iv([1, 2, 3])]], [])
     E("arr-op:matmul-operator", "a, b", "(a @ b, b.T @ a.T)", [[F([[1.0, 2.0], [3.0, 4.0]]), F([[0.5, -1.0], [2.0, 1.0]])], [F([[1.0, 2.0], [3.0, 4.0]]), F([1.0, -1.0])]], ["np.matmul"])
     E("arr-op:float32-values", "a", "(a * 2, a + a, a.sum())", [[F32([0.5, 0.25, 2.0])], [I32([1, 2, 3])]], [])
-    E("arr-op:dtype-attr", "a", "(a.dtype == 'complex128', a.dtype == 'float64', a.dtype == np.float64, a.dtype == 'bool', a.dtype == 'int64', a.dtype == int, a.dtype == float)",
-      [[CA], [FA], [IA], [B([True])], [C64([1j])], [F32([1.0])], [I32([1])]], ["arr.dtype"])
+    E("arr-op:dtype-attr", "a", "(a.dtype == 'complex128', a.dtype == 'float64', a.dtype == np.float64, a.dtype == 'bool', a.dtype == 'int64', a.dtype == np.complex128)",
+      [[CA], [FA], [IA], [B([True])], [C64([1j])], [F32([1.0])]], ["arr.dtype"])
+    E("arr-op:dtype-attr:python-types-and-int32", "a", "(a.dtype == int, a.dtype == float, a.dtype == 'int64', a.dtype == 'int32')", [[FA], [IA], [I32([1])]], ["arr.dtype"],
+      limitation="dtype comparison is by class name (pyvc/lib.py dtype_eq): the python types int / float are not recognised as dtypes, int32 and int64 are one class; the repository only compares with the strings 'bool' / 'complex128'")
     E("arr-op:attrs", "a", "(a.shape, a.ndim, a.size, a.shape[0], len(a), a.T.shape)", [[F2], [FA], [E02], [F(1.5)], [E0]], [])
     P("arr-op:inplace-whole", "a, b", """
         a += b
